@@ -1,4 +1,5 @@
 import ErdosVerif.Lemmas.SimCancelRun4
+import ErdosVerif.Lemmas.SimEditPending
 /-!
 The cancelled-task counter against the `.cancel` history entries, part 6: the handler of
 TASK_CANCEL, `__handle_scheduler_finish`, the dispatcher, `__step`, the loop, and the run
@@ -27,6 +28,42 @@ theorem handleTaskCancel_0 (ev : SEvent) :
 
 /-! ### `__handle_scheduler_finish` -/
 
+theorem tcN_editPending (c : Option Nat) (p : PlacementS) (evs : List SEvent) :
+    tcN (editPending c p evs) = tcN evs := by
+  have h : ∀ l : List SEvent, tcN l = (l.map (·.ev.etype)).countP (· == ET.taskCancel) := by
+    intro l; unfold tcN; rw [List.countP_map]; rfl
+  rw [h, h, editPending_map_etype]
+
+/-- The in-place edit of a pending placement event (time and placement only) keeps the
+accounting of the TASK_CANCEL events that exist outside the queue. -/
+theorem Inv.editPending {ex : List SEvent} {s : SimS} (h : Inv ex s) (c : Option Nat) (p : PlacementS) :
+    Inv (editPending c p ex) s := by
+  obtain ⟨a, b, c', d⟩ := h
+  have hmem : ∀ e ∈ s.queue.toList ++ Sim.editPending c p ex, isTC e = true →
+      ∃ e0 ∈ s.queue.toList ++ ex, isTC e0 = true ∧ e0.ev.eid = e.ev.eid := by
+    intro e he htc
+    rcases List.mem_append.mp he with he | he
+    · exact ⟨e, List.mem_append.mpr (.inl he), htc, rfl⟩
+    · rcases mem_editPending he with he | ⟨_, pt, e0, _, _, he0, _, rfl⟩
+      · exact ⟨e, List.mem_append.mpr (.inr he), htc, rfl⟩
+      · exact ⟨e0, List.mem_append.mpr (.inr he0), htc, rfl⟩
+  refine ⟨?_, b, ?_, ?_⟩
+  · rw [a]; unfold tcN; rw [List.countP_append, List.countP_append]
+    have := tcN_editPending c p ex
+    unfold tcN at this; rw [this]
+  · intro e he htc
+    obtain ⟨e0, he0, h0, hid⟩ := hmem e he htc
+    rw [← hid]; exact c' e0 he0 h0
+  · intro e he htc q hq
+    obtain ⟨e0, he0, h0, hid⟩ := hmem e he htc
+    rw [← hid]; exact d e0 he0 h0 q hq
+
+theorem Inv.editPendingCongr {ex : List SEvent} (s s' : SimS) (h : Inv ex s) (hq : s'.queue = s.queue)
+    (hl : cancelLogN s' = cancelLogN s)
+    (hc : s'.cancelledTasks = s.cancelledTasks) (hn : s'.nextEid = s.nextEid) (hf : s'.future = s.future)
+    (c : Option Nat) (p : PlacementS) : Inv (Sim.editPending c p ex) s' :=
+  Inv.editPending (Inv.congr s s' h hq hl hc hn hf) c p
+
 section schedFinish
 attribute [local spec] placementSkip_r placementEvents_r nextSchedulerEvent_0
 
@@ -40,9 +77,18 @@ theorem handleSchedulerFinish_0 (ev : SEvent) : K0 (handleSchedulerFinish ev) :=
     | d_solve
     | (pick_hyp hS => pick_hyp h => exact Inv.exPerm (hS _ h) List.perm_append_comm)
     | (pick_hyp hS => pick_hyp h => exact Inv.exPerm (hS _ (Inv.congr _ _ h rfl rfl rfl rfl rfl)) List.perm_append_comm)
+    | (pick_hyp hS => pick_hyp h => exact Inv.exPerm (hS _ (Inv.editPending h _ _)) List.perm_append_comm)
+    | (pick_hyp hS => pick_hyp h =>
+        exact Inv.exPerm (hS _ (Inv.editPendingCongr _ _ h rfl rfl rfl rfl rfl _ _)) List.perm_append_comm)
     | (intro s hS; pick_hyp h => exact hS _ h)
     | (intro s hS; pick_hyp h => exact hS _ (Inv.congr _ _ h rfl rfl rfl rfl rfl))
     | (pick_hyp h => exact Inv.addFreshAdd _ _ _ _ h (by rfl) rfl rfl rfl rfl rfl)
+    | skip
+  -- left: a placed PLACE_TASK entry (TASK_SCHEDULED row written; the pending list is edited, then extended)
+  rename_i hI _ _ _ _ _ _ _ _ _ t _ _ _ _ hS
+  have h1 : Inv _ _ := hI
+  have h2 := Inv.editPendingCongr _ t.snd h1 rfl rfl rfl rfl rfl
+  exact Inv.exPerm (hS _ (h2 _ _)) List.perm_append_comm
    
 end schedFinish
 
